@@ -1,0 +1,20 @@
+//go:build verif
+
+package pdf
+
+import "io"
+
+// VerifAsMalformedFilter exposes asMalformedFilter, so that the error
+// classification of filter readers can be observed for arbitrary inner
+// readers (verification property C08).  It adds no logic of its own.
+func VerifAsMalformedFilter(rc io.ReadCloser, err error) (io.ReadCloser, error) {
+	return asMalformedFilter(rc, err)
+}
+
+// VerifNewStreamReaderAt is [NewStream] over an arbitrary byte source, so
+// that DecodeStream can be observed on sources that fail (verification
+// property C08).  It adds no logic of its own.
+func VerifNewStreamReaderAt(dict Dict, data io.ReaderAt, length int64) *Stream {
+	delete(dict, "Length")
+	return &Stream{Dict: dict, data: data, length: length}
+}
